@@ -19,14 +19,17 @@ package encoding
 //@   encoder w
 //@ interface (c CustomEncoder) Encode(e Encoder) (err error)
 //@   trusted
-//@   modifies allof(len), allof(writes), allof(data)
+//@   modifies allof(len), allof(writes), allof(data), allof(wfailed)
+//@   ensures forall ww io.Writer {ww.wfailed} :: (ww.wfailed ==> err != nil || old(ww.wfailed)) && (old(ww.wfailed) ==> ww.wfailed)
 //@   ensures forall ww io.Writer {ww.len} :: ww.len >= old(ww.len)
 //@   ensures forall ww io.Writer, j int {ww.data[j]} :: j < old(ww.len) ==> ww.data[j] == old(ww.data[j])
 
 //@ func (q qiEncoder) value(v reflect.Value) (err error)
 //@   tags C03
 //@   requires q.w != nil
-//@   modifies allof(len), allof(writes), allof(data)
+//@   modifies allof(len), allof(writes), allof(data), allof(wfailed)
+// a failed write of any field or element fails the whole encoding (sticky, like short reads)
+//@   ensures[C03] forall ww io.Writer {ww.wfailed} :: (ww.wfailed ==> err != nil || old(ww.wfailed)) && (old(ww.wfailed) ==> ww.wfailed)
 //@   ensures forall ww io.Writer {ww.len} :: ww.len >= old(ww.len)
 //@   ensures forall ww io.Writer, j int {ww.data[j]} :: j < old(ww.len) ==> ww.data[j] == old(ww.data[j])
 //@   ensures[C03] err == nil && rkind(rbase(v)) == 1 ==> q.w.len == old(q.w.len) + 1 && q.w.data[old(q.w.len)] == (rbase(v).rval != 0 ? 1 : 0)
@@ -49,16 +52,19 @@ package encoding
 //@     invariant 0 <= i && l == rnfield(old(v)) && rkind(old(v)) == 25
 //@     invariant forall ww io.Writer {ww.len} :: ww.len >= old(ww.len)
 //@     invariant forall ww io.Writer, j int {ww.data[j]} :: j < old(ww.len) ==> ww.data[j] == old(ww.data[j])
+//@     invariant forall ww io.Writer {ww.wfailed} :: (ww.wfailed ==> old(ww.wfailed)) && (old(ww.wfailed) ==> ww.wfailed)
 //@   loop 2:
 //@     invariant 0 <= i && l == old(v).rlen && rkind(old(v)) == 23
 //@     invariant q.w.len >= old(q.w.len) + 4 && isle32(q.w.data, old(q.w.len), u32(int32(l)))
 //@     invariant forall ww io.Writer {ww.len} :: ww.len >= old(ww.len)
 //@     invariant forall ww io.Writer, j int {ww.data[j]} :: j < old(ww.len) ==> ww.data[j] == old(ww.data[j])
+//@     invariant forall ww io.Writer {ww.wfailed} :: (ww.wfailed ==> old(ww.wfailed)) && (old(ww.wfailed) ==> ww.wfailed)
 //@   loop 3:
 //@     invariant rkind(old(v)) == 21
 //@     invariant q.w.len >= old(q.w.len) + 4 && isle32(q.w.data, old(q.w.len), u32(int32(old(v).rlen)))
 //@     invariant forall ww io.Writer {ww.len} :: ww.len >= old(ww.len)
 //@     invariant forall ww io.Writer, j int {ww.data[j]} :: j < old(ww.len) ==> ww.data[j] == old(ww.data[j])
+//@     invariant forall ww io.Writer {ww.wfailed} :: (ww.wfailed ==> old(ww.wfailed)) && (old(ww.wfailed) ==> ww.wfailed)
 //@   call value#2: assert[C03] arg0 == rfield(old(v), i)
 //@   call value#3: assert[C03] arg0 == ridx(old(v), i)
 //@   call value#4: assert[C03] arg0 == k
@@ -159,7 +165,8 @@ package encoding
 //@ func (q qiEncoder) Encode(x interface{}) (err error)
 //@   tags C03
 //@   requires q.w != nil
-//@   modifies allof(len), allof(writes), allof(data)
+//@   modifies allof(len), allof(writes), allof(data), allof(wfailed)
+//@   ensures[C03] forall ww io.Writer {ww.wfailed} :: (ww.wfailed ==> err != nil || old(ww.wfailed)) && (old(ww.wfailed) ==> ww.wfailed)
 //@   ensures forall ww io.Writer {ww.len} :: ww.len >= old(ww.len)
 //@   ensures forall ww io.Writer, j int {ww.data[j]} :: j < old(ww.len) ==> ww.data[j] == old(ww.data[j])
 //@   ensures[C03] err == nil && typeis(x, bool) ==> q.w.len == old(q.w.len) + 1 && q.w.data[old(q.w.len)] == (unbox(x, bool) ? 1 : 0)
